@@ -321,6 +321,9 @@ func c10Devmod(e *c10Env, cw *c10World) {
 		{N(2), C(math.MaxInt64, 1, "a")}, {N(2), C(1, math.MaxInt64, "a")}, {N(2), C(math.MinInt64, 0)},
 		{N(65535)}, {N(65536)}, {N(100000)}, {N(1 << 22)}, {N(1 << 62)}, {N(math.MaxInt64)},
 		{N(65535), C(65534, 1, "last")}, {N(65535), C(65535, 1, "beyond")},
+		// a chunk that starts before the end of what was filled so far and, moved there, would run past the announced count
+		{N(3), C(0, 2, "a", "b"), C(0, 2, "c", "d")}, {N(4), C(0, 3, "a", "b", "c"), C(1, 3, "d", "e", "f")}, {N(5), C(0, 4, "a", "b", "c", "d"), C(2, 3, "e", "f", "g")},
+		{N(3), C(0, 2, "a", "b"), C(1, 2, "c", "d")}, {N(2), C(0, 1, "a"), C(0, 2, "b", "c")},
 	}
 	nRandom := 120
 	if e.x.thorough() {
